@@ -106,6 +106,19 @@ def run_check(pid, tier, seed, jobs, only=None, verbose=False, record_baseline=F
     else:
         outs = [_run_unit(w) for w in work]
 
+    # bounded stand-ins (never counted as proved): native drivers with a stated bound
+    from . import manifest_data as MD
+    bounded_results = []
+    for b in MD.PROPS.get(pid, {}).get('bounded', []):
+        if only:
+            continue
+        req = {'property': pid, 'obligation': b['obligation'], 'bounded': True, 'tier': tier, 'seed': seed}
+        try:
+            res = replay_mod.run_driver(b['driver'], req, timeout=3000)
+        except Exception as e:   # noqa
+            res = {'reproduced': False, 'error': f'driver failed: {e}'}
+        res['driver'] = b['driver']
+        bounded_results.append((b, res))
     known = [k for k in load_known() if k.get('property') == pid]
     known_ids = {k['id'] for k in known if k.get('status') == 'known'}
     errors, results = [], []
@@ -197,6 +210,16 @@ def run_check(pid, tier, seed, jobs, only=None, verbose=False, record_baseline=F
         lines.append(f'VIOLATION property={pid} replay={path}{suffix}')
         vio_records.append(rec)
         exit_code = 1
+    for b, res in bounded_results:
+        if res.get('reproduced'):
+            path = os.path.join(OUT_DIR, 'replay', f'{pid}-{safe(b["obligation"])}.json')
+            with open(path, 'w') as f:
+                json.dump({'property': pid, 'obligation': b['obligation'], 'bounded_stand_in': b,
+                           'replay': res}, f, indent=1, default=str)
+            lines.append(f'VIOLATION property={pid} replay={path}')
+            exit_code = 1
+        elif res.get('error') or res.get('detail') == 'driver gave no verdict':
+            errors.append({'unit': 'bounded:' + b['obligation'], 'error': str(res)[:300]})
     if exit_code == 0 and unknown:
         exit_code = 2
     if errors:
@@ -205,6 +228,11 @@ def run_check(pid, tier, seed, jobs, only=None, verbose=False, record_baseline=F
     wall = time.time() - t0
     evidence = build_evidence(pid, tier, seed, reg, outs, results, proved, failed, unknown, known_hits,
                               violations, errors, wall, stale_kf)
+    evidence['coverage']['bounded_stand_ins'] = [
+        {'clause': b['what'], 'bound': b['bound'], 'driver': b['driver'], 'labelled': 'bounded (not counted as proved)',
+         'result': {k: v for k, v in res.items() if k in ('reproduced', 'detail', 'cases', 'input')}}
+        for b, res in bounded_results]
+    evidence['violations'] += sum(1 for b, res in bounded_results if res.get('reproduced'))
     os.makedirs(EVID_DIR, exist_ok=True)
     with open(os.path.join(EVID_DIR, f'{pid}.json'), 'w') as f:
         json.dump(evidence, f, indent=1, default=str)
